@@ -378,3 +378,9 @@ Qed.
 
 Lemma map_via_seq {A B} (F : A -> B) (l : list A) d : map F l = map (fun t => F (nth t l d)) (seq 0 (length l)).
 Proof. rewrite <- (map_nth_seq l d) at 1. rewrite map_map. reflexivity. Qed.
+
+Lemma nth_firstn_lt {A} (l : list A) m i d : i < m -> nth i (firstn m l) d = nth i l d.
+Proof.
+  revert l i. induction m as [|m IH]; intros l i H; [lia|].
+  destruct l as [|x t]; [destruct i; reflexivity|]. destruct i; [reflexivity|]. cbn [firstn nth]. apply IH. lia.
+Qed.
